@@ -13,6 +13,12 @@ R7  the form reader answers "malformed" only for a failure of its parsing
     primitives: no explicit raise / assert decided by a test on percent-DECODED
     content (every string is a legitimate form value)
 
+R8  a (de)serializer slot without a working class-level fallback is bound on
+    every constructor path
+R9  the ASGI sync shortcut slots are bound only under an exact-type test of self
+    (or a test covering every public method they replace)
+R10 deserialize_async parses the whole body once, like its sync sibling
+
 Roles come from contract names (`_media`, `_media_error`, `_media_rendered`,
 `_resolve`, `exhaust_stream`, `deserialize*`, `serialize*`, parameter and
 tuple positions) and def-use from them.
@@ -1575,3 +1581,417 @@ def check(run):
     run.rule('R7', _safe(r7_form_reader_rejects_only_parse_failures), 'the form reader rejects a body only for a failure of its parsing primitives, never by '
              'inspecting the percent-decoded content (U+FFFD sniffing, pattern / membership tests on decoded text)', floor=2)
     run.rule('R8', _safe(r8_handler_slots_bound), 'a (de)serializer slot without a working class-level fallback is bound on every normal path of the handler constructor (both dumps() result types)', floor=2)
+    run.rule('R9', _safe(r9_shortcut_slots_exact_type), 'the sync shortcut slots (_serialize_sync / _deserialize_sync) are bound only under `type(self) is <Class>` or a test '
+             'covering every public method the ASGI flavour calls them instead of (read from get_media / render_body)', floor=6)
+    run.rule('R10', _safe(r10_async_parses_whole_body_once), 'deserialize_async hands the parser of its sync sibling the whole body (read-to-end), once, outside any loop: '
+             'the document does not depend on the chunking', floor=6)
+
+
+# ---------------------------------------------------------------------------
+# R9 the sync shortcut slots are bound only where no public method they replace can be overridden
+# (added after seeded change s9-c12-1)
+# ---------------------------------------------------------------------------
+#
+# The ASGI flavour asks the resolver for (handler, handler._serialize_sync, handler._deserialize_sync) and, when a slot is
+# set, calls IT instead of the handler's public coroutine (`await handler.deserialize_async(...)` /
+# `await handler.serialize_async(...)`).  Which coroutine a slot replaces is READ from the consumers (the else arm of the
+# test on the slot variable); the public methods that coroutine reaches through `self.<m>(...)` as the handler class resolves
+# them (BaseHandler.serialize_async -> self.serialize) are replaced with it.  A handler constructor may therefore bind a slot
+# to a value only under a dominating test that excludes every subclass (`type(self) is <Class>`), or that shows each replaced
+# method to be the class's own (`type(self).m is <Class>.m` for every such m).  isinstance() excludes nothing.
+
+RESOLVER_QUAL = 'falcon.media.handlers.Handlers._create_resolver'
+SLOT_CONSUMERS = ('falcon.asgi.request.Request.get_media', 'falcon.asgi.response.Response.render_body')
+_R9_WITNESS = "class ListForm(URLEncodedFormHandler): async def deserialize_async(...) -> lists; on ASGI req.get_media() gives the BASE " \
+              "handler's parse ({'tag': 'a'} instead of {'tag': ['a']}) while WSGI calls the configured handler: the two flavours disagree"
+
+
+def _resolver_slot_positions(p) -> Dict[int, str]:
+    """tuple position -> slot attribute, read from the resolver's value return (handler, getattr(handler, '<slot>', None), ...)"""
+    cr = p.func(RESOLVER_QUAL)
+    res = single(list(cr.nested.values()), 'nested resolver function', cr.qual)
+    out: Dict[int, str] = {}
+    for r in walk_self(res.node):
+        if isinstance(r, ast.Return) and isinstance(r.value, ast.Tuple):
+            for i, e in enumerate(r.value.elts):
+                if isinstance(e, ast.Call) and isinstance(e.func, ast.Name) and e.func.id == 'getattr' and len(e.args) >= 2 \
+                        and isinstance(e.args[1], ast.Constant) and isinstance(e.args[1].value, str):
+                    if out.get(i, e.args[1].value) != e.args[1].value:
+                        raise UnknownIdiom('resolver: position %d carries two different slots' % i)
+                    out[i] = e.args[1].value
+                elif isinstance(e, ast.Attribute) and e.attr.endswith('_sync'):
+                    out[i] = e.attr
+    if not out:
+        raise AnchorError('resolver: no return of (handler, getattr(handler, <slot>, None), ...) found')
+    return out
+
+
+def _replaced_coroutines(run, p, positions: Dict[int, str]) -> Dict[str, Set[str]]:
+    """slot attribute -> names of the handler coroutines the ASGI consumers call when the slot is NOT set"""
+    out: Dict[str, Set[str]] = {}
+    for q in SLOT_CONSUMERS:
+        f = p.func(q)
+        run.use(f)
+        for n in walk_self(f.node):
+            if not (isinstance(n, ast.Assign) and len(n.targets) == 1 and isinstance(n.targets[0], ast.Tuple)
+                    and isinstance(strip_await(n.value), ast.Call) and isinstance(strip_await(n.value).func, ast.Attribute)
+                    and strip_await(n.value).func.attr == '_resolve'):
+                continue
+            elts = n.targets[0].elts
+            hname = elts[0].id if isinstance(elts[0], ast.Name) else None
+            for i, slot in positions.items():
+                if i >= len(elts) or not isinstance(elts[i], ast.Name):
+                    continue
+                var = elts[i].id
+                if not any(isinstance(x, ast.Name) and x.id == var and isinstance(x.ctx, ast.Load) for x in walk_self(f.node)):
+                    continue                # a placeholder target: this consumer does not use that slot
+                tests = [t for t in walk_self(f.node) if isinstance(t, ast.If) and isinstance(t.test, ast.Name) and t.test.id == var]
+                if not tests:
+                    raise UnknownIdiom('%s: the slot variable %s is not tested by `if %s:`' % (q, var, var))
+                for t in tests:
+                    calls = [c for s in t.orelse for c in walk_self(s) if isinstance(c, ast.Call) and isinstance(c.func, ast.Attribute)
+                             and isinstance(c.func.value, ast.Name) and c.func.value.id == hname]
+                    if not calls:
+                        raise UnknownIdiom('%s: no handler method is called where %s is unset' % (q, var))
+                    for c in calls:
+                        out.setdefault(slot, set()).add(c.func.attr)
+    if not out:
+        raise AnchorError('no ASGI consumer of the sync shortcut slots found')
+    return out
+
+
+def _self_called_public(p, cq: str, names: Set[str]) -> Set[str]:
+    """closure of `names` under `self.<m>(...)` calls to public (de)serializer methods, as class cq resolves them"""
+    out = set(names)
+    work = list(names)
+    while work:
+        m = p.lookup_method(cq, work.pop())
+        if m is None:
+            continue
+        sn = m.params()[0] if m.params() else 'self'
+        for c in walk_self(m.node):
+            if isinstance(c, ast.Call) and isinstance(c.func, ast.Attribute) and isinstance(c.func.value, ast.Name) and c.func.value.id == sn \
+                    and c.func.attr in ('serialize', 'deserialize', 'serialize_async', 'deserialize_async') and c.func.attr not in out:
+                out.add(c.func.attr)
+                work.append(c.func.attr)
+    return out
+
+
+def _type_guard_facts(p, f: Func, cq: str, test, truth: bool, typeof_names: Set[str], sn: str):
+    """facts a branch outcome establishes: ('exact',) - type(self) is the class; ('same', m) - type(self).m is the class's m.
+    second result: does the test talk about the type of self in a shape that is not read?"""
+    facts: Set[tuple] = set()
+    unread = [False]
+
+    def is_typeof(e):
+        if isinstance(e, ast.Call) and isinstance(e.func, ast.Name) and e.func.id == 'type' and len(e.args) == 1 \
+                and isinstance(e.args[0], ast.Name) and e.args[0].id == sn:
+            return True
+        if isinstance(e, ast.Attribute) and e.attr == '__class__' and isinstance(e.value, ast.Name) and e.value.id == sn:
+            return True
+        return isinstance(e, ast.Name) and e.id in typeof_names
+
+    def is_cls(e):
+        return isinstance(e, (ast.Name, ast.Attribute)) and not is_typeof(e) and p.resolve_expr(f.module, e, f) == cq
+
+    def mentions_type(e):
+        return any(is_typeof(x) or (isinstance(x, ast.Attribute) and x.attr in ('__func__', '__mro__', '__bases__')) for x in walk_self(e))
+
+    def walk(e, t):
+        if isinstance(e, ast.UnaryOp) and isinstance(e.op, ast.Not):
+            return walk(e.operand, not t)
+        if isinstance(e, ast.BoolOp):
+            if (isinstance(e.op, ast.And) and t) or (isinstance(e.op, ast.Or) and not t):
+                for v in e.values:
+                    walk(v, t)
+            elif mentions_type(e):
+                unread[0] = True          # `a or b` that is true: neither disjunct is known
+            return
+        if isinstance(e, ast.Compare) and len(e.ops) == 1:
+            op = e.ops[0]
+            pos = (isinstance(op, (ast.Is, ast.Eq)) and t) or (isinstance(op, (ast.IsNot, ast.NotEq)) and not t)
+            l, r = e.left, e.comparators[0]
+            for a, b in ((l, r), (r, l)):
+                if is_typeof(a) and is_cls(b):
+                    if pos:
+                        facts.add(('exact',))
+                    return
+                if isinstance(a, ast.Attribute) and isinstance(b, ast.Attribute) and a.attr == b.attr and is_typeof(a.value) and is_cls(b.value):
+                    if pos:
+                        facts.add(('same', a.attr))
+                    return
+        if isinstance(e, ast.Call) and isinstance(e.func, ast.Name) and e.func.id in ('isinstance', 'issubclass'):
+            return                          # true for every subclass: proves nothing
+        if mentions_type(e):
+            unread[0] = True
+
+    walk(test, truth)
+    return facts, unread[0]
+
+
+def r9_shortcut_slots_exact_type(run):
+    """A handler constructor binds `_serialize_sync` / `_deserialize_sync` to a value only under `type(self) is <Class>` or
+    under a test showing every public method the slot replaces (read from the ASGI consumers) to be the class's own.
+    W: a subclass overriding only deserialize_async is bypassed on ASGI when the guard looks at serialize/deserialize only."""
+    p = run.project
+    positions = _resolver_slot_positions(p)
+    replaced = _replaced_coroutines(run, p, positions)
+    run.sample({'sync shortcut slots replace': {k: sorted(v) for k, v in sorted(replaced.items())}})
+    n_ob = 0
+    for cq in sorted(p.subclasses(BASE_HANDLER)):
+        c = p.cls(cq)
+        init = c.methods.get('__init__')
+        if init is None:
+            continue
+        sn = init.params()[0] if init.params() else 'self'
+        cfg = cfg_of(init, p)
+        binds = []
+        for n in cfg.live_nodes():
+            if n.kind != 'stmt' or not isinstance(n.ast, (ast.Assign, ast.AnnAssign)) or getattr(n.ast, 'value', None) is None:
+                continue
+            for t in (n.ast.targets if isinstance(n.ast, ast.Assign) else [n.ast.target]):
+                for x in (t.elts if isinstance(t, (ast.Tuple, ast.List)) else [t]):
+                    if isinstance(x, ast.Attribute) and isinstance(x.value, ast.Name) and x.value.id == sn and x.attr in replaced:
+                        if isinstance(n.ast.value, ast.Constant) and n.ast.value.value is None:
+                            continue
+                        binds.append((n, x.attr))
+        for s in walk_self(init.node):
+            if isinstance(s, ast.Call) and isinstance(s.func, ast.Name) and s.func.id == 'setattr' and len(s.args) >= 2 \
+                    and not (isinstance(s.args[1], ast.Constant) and s.args[1].value not in replaced):
+                raise UnknownIdiom('%s binds attributes through setattr()' % init.qual)
+        if not binds:
+            continue
+        run.use_cfg(cfg)
+        typeof_names: Set[str] = set()
+        for nm in {x.id for x in ast.walk(init.node) if isinstance(x, ast.Name) and isinstance(x.ctx, ast.Store)}:
+            bs = _assignments(init.node, nm)
+            if len(bs) == 1 and bs[0][1] is not None:
+                v = bs[0][1]
+                if (isinstance(v, ast.Call) and isinstance(v.func, ast.Name) and v.func.id == 'type' and len(v.args) == 1
+                        and isinstance(v.args[0], ast.Name) and v.args[0].id == sn) or \
+                        (isinstance(v, ast.Attribute) and v.attr == '__class__' and isinstance(v.value, ast.Name) and v.value.id == sn):
+                    typeof_names.add(nm)
+        for node, slot in binds:
+            need = _self_called_public(p, cq, replaced[slot])
+            facts: Set[tuple] = set()
+            guards = []
+            for t in cfg.live_nodes():
+                if t.kind != 'test':
+                    continue
+                for (y, l) in cfg.succ[t.id]:
+                    if l in ('T', 'F') and flow.dominated_by_edge(cfg, node.id, (t.id, y, l)):
+                        fs, unread = _type_guard_facts(p, init, cq, t.ast, l == 'T', typeof_names, sn)
+                        if unread and not fs:
+                            raise UnknownIdiom('%s: the test %s in front of self.%s talks about the type of self in a shape this rule cannot read'
+                                               % (init.qual, short(t.ast, 80), slot))
+                        facts |= fs
+                        if fs or any(isinstance(x, ast.Name) and x.id in typeof_names | {sn} for x in walk_self(t.ast)):
+                            guards.append(t.ast)
+            same = {m for k, *rest in facts if k == 'same' for m in rest}
+            ok = ('exact',) in facts or need <= same
+            n_ob += 1
+            missing = sorted(need - same)
+            guard_txt = ' and '.join(short(g, 160) for g in guards) or 'no test on the type of self'
+            run.check(ok, '%s.__init__ binds self.%s (used by the ASGI flavour INSTEAD of %s) only where no subclass can have overridden what it replaces: '
+                      'under `type(self) is %s` or a test covering %s' % (c.name, slot, '/'.join(sorted(replaced[slot])), c.name, ', '.join(sorted(need))),
+                      init, 'self.%s = %s under %s' % (slot, short(node.ast.value, 60), guard_txt), where=init.loc(node.ast),
+                      witness=None if ok else ['the guard does not show %s to be %s\'s own' % (', '.join(missing), c.name)],
+                      runtime_witness=_R9_WITNESS)
+    if n_ob == 0:
+        raise AnchorError('no handler constructor binds a sync shortcut slot')
+    return n_ob
+
+
+# ---------------------------------------------------------------------------
+# R10 deserialize_async parses the WHOLE body ONCE, like its sync sibling (added after seeded change s9-c12-2)
+# ---------------------------------------------------------------------------
+#
+# "... deserializes to an equal document on WSGI and ASGI alike and for every chunking of the request body": the sync
+# `deserialize` of a handler hands `stream.read()` - the whole body - to one parse callee.  Its coroutine sibling must hand
+# the same callee the whole body too: the argument derives from `await stream.read()` without a size (or from a join over
+# ALL chunks of the stream), the call is not inside a loop, and no path makes it twice.  A parser applied chunk by chunk sees
+# the chunk boundaries (repeated keys merged by dict.update(), multi-byte sequences / escapes cut in two).
+
+_R10_WITNESS = "body 'color=green&color=black&color=white&size=xl' delivered in several http.request events (subclassed handler or a nested " \
+               "urlencoded multipart part): {'color': 'white', 'size': 'xl'} instead of the list - in one event, and on WSGI, the list is kept"
+
+
+def _whole_read(e, stream: str) -> Optional[bool]:
+    """True: `stream.read()` / `await stream.read()` with no size (or -1 / None); False: a sized read / readline / a chunk;
+    None: something else"""
+    e = strip_await(e)
+    if isinstance(e, ast.Call) and isinstance(e.func, ast.Attribute) and isinstance(e.func.value, ast.Name) and e.func.value.id == stream:
+        if e.func.attr in ('read', 'readall'):
+            args = list(e.args) + [k.value for k in e.keywords]
+            if not args:
+                return True
+            if len(args) == 1:
+                a = args[0]
+                if isinstance(a, ast.Constant) and a.value is None:
+                    return True
+                if isinstance(a, ast.UnaryOp) and isinstance(a.op, ast.USub) and isinstance(a.operand, ast.Constant) and a.operand.value == 1:
+                    return True
+            return False
+        if e.func.attr in ('readline', 'readlines', 'read_until', 'peek', 'read1', 'readinto', 'pipe', 'pipe_until', 'delimit'):
+            return False
+    return None
+
+
+def _is_chunk_itself(e, chunk: str) -> bool:
+    """the chunk, or a plain copy of it (bytes(chunk) / bytearray(chunk) / memoryview(chunk))"""
+    if isinstance(e, ast.Name):
+        return e.id == chunk
+    return isinstance(e, ast.Call) and isinstance(e.func, ast.Name) and e.func.id in ('bytes', 'bytearray', 'memoryview') \
+        and len(e.args) == 1 and not e.keywords and _is_chunk_itself(e.args[0], chunk)
+
+
+def _body_provenance(f: Func, e, stream: str, depth=0) -> str:
+    """'whole' | 'partial' | 'unknown' for the data expression handed to the parser"""
+    if depth > 6:
+        return 'unknown'
+    e = strip_await(e)
+    w = _whole_read(e, stream)
+    if w is not None:
+        return 'whole' if w else 'partial'
+    if isinstance(e, ast.Constant):
+        return 'partial'                     # a literal is not the body
+    if isinstance(e, ast.Name):
+        binds = _assignments(f.node, e.id)
+        if not binds:
+            return 'unknown'
+        kinds = set()
+        for stmt, v in binds:
+            if isinstance(stmt, (ast.For, ast.AsyncFor)):
+                it = strip_await(stmt.iter)
+                kinds.add('partial' if (isinstance(it, ast.Name) and it.id == stream) or any(
+                    isinstance(x, ast.Name) and x.id == stream for x in ast.walk(it)) else 'unknown')
+            elif v is None:
+                # tuple unpacking / augmented assignment: pieces of something
+                src = getattr(stmt, 'value', None)
+                if src is not None and any(isinstance(x, ast.Name) and x.id == stream for x in ast.walk(src)):
+                    kinds.add('partial')
+                elif src is not None:
+                    inner = {_body_provenance(f, x, stream, depth + 1) for x in ast.walk(src) if isinstance(x, ast.Name) and x.id != e.id}
+                    kinds.add('partial' if 'partial' in inner else 'unknown')
+                else:
+                    kinds.add('unknown')
+            else:
+                kinds.add(_body_provenance(f, v, stream, depth + 1))
+        if kinds == {'whole'}:
+            return 'whole'
+        return 'partial' if 'partial' in kinds else 'unknown'
+    if isinstance(e, ast.Call) and isinstance(e.func, ast.Attribute) and e.func.attr == 'join' and len(e.args) == 1:
+        a = e.args[0]
+        # b''.join([chunk async for chunk in stream])  /  b''.join(chunks) with chunks filled by an unconditional append in a loop over the stream
+        if isinstance(a, (ast.ListComp, ast.GeneratorExp)) and len(a.generators) == 1 \
+                and isinstance(a.generators[0].iter, ast.Name) and a.generators[0].iter.id == stream and isinstance(a.generators[0].target, ast.Name):
+            tgt = a.generators[0].target.id
+            if _is_chunk_itself(a.elt, tgt) and not a.generators[0].ifs:
+                return 'whole'
+            # pieces transformed / filtered chunk by chunk (chunk.decode(), chunk.strip(), `if chunk...`): what is joined is not the
+            # body as sent - the transformation sees the chunk boundaries
+            return 'partial'
+        if isinstance(a, ast.Name):
+            for loop in [n for n in walk_self(f.node) if isinstance(n, (ast.For, ast.AsyncFor))]:
+                if isinstance(loop.iter, ast.Name) and loop.iter.id == stream and isinstance(loop.target, ast.Name):
+                    for s in loop.body:
+                        if isinstance(s, ast.Expr) and isinstance(s.value, ast.Call) and isinstance(s.value.func, ast.Attribute) \
+                                and s.value.func.attr == 'append' and isinstance(s.value.func.value, ast.Name) and s.value.func.value.id == a.id \
+                                and len(s.value.args) == 1:
+                            return 'whole' if _is_chunk_itself(s.value.args[0], loop.target.id) else 'partial'
+                    if any(isinstance(x, ast.Call) and isinstance(x.func, ast.Attribute) and x.func.attr in ('append', 'extend')
+                           and isinstance(x.func.value, ast.Name) and x.func.value.id == a.id for s in loop.body for x in ast.walk(s)):
+                        return 'partial'             # appended under a condition / in a nested block: not every chunk as it came
+        return 'unknown'
+    if isinstance(e, ast.Call) and isinstance(e.func, ast.Attribute) and e.func.attr in ('decode', 'encode') and not isinstance(e.func.value, ast.Constant):
+        return _body_provenance(f, e.func.value, stream, depth + 1)      # the whole text re-coded is still the whole body (R3 judges the codec)
+    if isinstance(e, (ast.Subscript, ast.BinOp)):
+        inner = {_body_provenance(f, x, stream, depth + 1) for x in ast.walk(e) if isinstance(x, ast.Name)}
+        return 'partial' if inner & {'partial', 'whole'} else 'unknown'
+    if isinstance(e, ast.Call) and isinstance(e.func, ast.Attribute) and e.func.attr in ('partition', 'rpartition', 'split', 'rsplit', 'strip'):
+        inner = _body_provenance(f, e.func.value, stream, depth + 1)
+        return 'partial' if inner in ('partial', 'whole') else 'unknown'
+    return 'unknown'
+
+
+def r10_async_parses_whole_body_once(run):
+    """For every handler of falcon.media whose sync `deserialize` is `<parse>(stream.read())`: its own `deserialize_async` calls
+    the same parse callee, outside any loop, at most once per path, on data that derives from a read-to-end of the stream.
+    W: a repeated form key split over two ASGI body events collapses to its last value."""
+    p = run.project
+    n_ob = 0
+    for cq in sorted(p.subclasses(BASE_HANDLER)):
+        c = p.cls(cq)
+        d, da = c.methods.get('deserialize'), c.methods.get('deserialize_async')
+        if d is None or da is None or not cq.startswith('falcon.media.'):
+            continue
+        dparams = [x for x in d.params()]
+        if len(dparams) < 2:
+            continue
+        sstream = dparams[1]
+        # the sync sibling: which callee gets the whole body?
+        callee = None
+        for call in walk_self(d.node):
+            if isinstance(call, ast.Call) and len(call.args) >= 1 and _whole_read(call, sstream) is None \
+                    and _body_provenance(d, call.args[0], sstream) == 'whole':
+                t = p.resolve_callable(d, call.func)
+                if isinstance(t, Func):
+                    callee = t
+                elif not (isinstance(call.func, ast.Attribute) and call.func.attr in ('decode', 'encode', 'join')):
+                    raise UnknownIdiom('%s: the whole body goes to %s' % (d.qual, short(call.func, 60)))
+        if callee is None:
+            if any(_whole_read(x, sstream) is not None for x in walk_self(d.node)):
+                raise UnknownIdiom('%s reads the stream, but the parser the data goes to was not found' % d.qual)
+            continue            # a handler that does not parse from a read-to-end (multipart: a lazy form object)
+        run.use(d)
+        aparams = [x for x in da.params()]
+        if len(aparams) < 2:
+            raise UnknownIdiom('%s takes %s' % (da.qual, aparams))
+        astream = aparams[1]
+        cfg = cfg_of(da, p)
+        run.use_cfg(cfg)
+        calls = [x for x in walk_self(da.node) if isinstance(x, ast.Call) and p.resolve_callable(da, x.func) is callee]
+        if not calls:
+            raise UnknownIdiom('%s does not call %s, the parser of its sync sibling' % (da.qual, callee.qual))
+        parent = enclosing_map(da.node)
+        for call in calls:
+            n_ob += 1
+            loops = []
+            cur = parent.get(id(call))
+            while cur is not None and cur is not da.node:
+                if isinstance(cur, (ast.For, ast.AsyncFor, ast.While, ast.ListComp, ast.GeneratorExp, ast.SetComp, ast.DictComp)):
+                    loops.append(cur)
+                cur = parent.get(id(cur))
+            if loops:
+                lp = loops[-1]
+                run.fail('%s: the parser %s is applied once to the whole body, not inside a loop' % (da.qual, callee.name), da, call, where=da.loc(call),
+                         witness=['inside: %s' % (short(lp, 80).splitlines()[0])], runtime_witness=_R10_WITNESS)
+                continue
+            if not call.args:
+                raise UnknownIdiom('%s: %s' % (da.qual, short(call, 60)))
+            prov = _body_provenance(da, call.args[0], astream)
+            if prov == 'unknown':
+                raise UnknownIdiom('%s: where the data of %s comes from (expected `await %s.read()` or a join of all chunks)'
+                                   % (da.qual, short(call, 60), astream))
+            run.check(prov == 'whole', '%s: the data handed to %s is the whole body (a read-to-end of the stream), as in %s'
+                      % (da.qual, callee.name, d.name), da, call, where=da.loc(call),
+                      witness=None if prov == 'whole' else ['the argument is a part of the body (a sized read / one chunk / a cut piece)'],
+                      runtime_witness=_R10_WITNESS)
+        # at most one parse per path
+        ids = {n.id for n in cfg.live_nodes() if any(x is cl for cl in calls for x in n.walk())}
+        twice = None
+        for a in ids:
+            nxt = [b for (b, l) in cfg.succ[a] if l != 'exc']
+            reach = flow.reachable(cfg, nxt, edge_filter=flow.no_exc)
+            hit = [b for b in ids if b in reach]
+            if hit:
+                twice = (a, hit[0])
+        n_ob += 1
+        run.check(twice is None, '%s: no path parses twice (one document per body)' % da.qual, da,
+                  cfg.node(twice[1]).ast if twice else 'one call of %s per path' % callee.name,
+                  where=da.loc(cfg.node(twice[1]).ast) if twice else da.loc(),
+                  witness=None if twice is None else ['%s then %s' % (cfg.node(twice[0]).text(), cfg.node(twice[1]).text())],
+                  runtime_witness=_R10_WITNESS)
+    if n_ob == 0:
+        raise AnchorError('no handler with a deserialize / deserialize_async pair parsing a read-to-end found')
+    return n_ob
